@@ -548,6 +548,12 @@ func methodFor(m string) string {
 
 func (s *s1) checkC07(i int, out *TxnOutcome, strict bool) {
 	e := s.e
+	if len(integrityProblems(e.Sch, out.After)) > 0 || len(integrityProblems(e.Sch, out.Before)) > 0 {
+		// the database holds a dangling reference (a listed C04 finding): what it
+		// stores and what it announces cannot both be right
+		e.Abort("database violates referential integrity: C04's concern")
+		return
+	}
 	for _, o := range s.obs {
 		notes := o.peer.Notes[o.seen:]
 		var ups []*RawNote
